@@ -118,7 +118,8 @@ def gen_type(rng, depth=0, maxdepth=3, hashable=False):
 
 
 def gen_td(rng, depth, maxdepth):
-    keys = rng.sample(["a", "b", "c", "d", "e"], rng.choice([1, 1, 2, 3]))
+    # field names include the words the JSON encoding itself uses as keys
+    keys = rng.sample(["a", "b", "c", "d", "e", "module", "qualname", "elem_types", "is_typed_dict"], rng.choice([1, 1, 2, 3]))
     nreq = rng.randint(0, len(keys))
     req = ", ".join(f"'{k}': {gen_type(rng, depth + 1, maxdepth)}" for k in keys[:nreq])
     opt = ", ".join(f"'{k}': {gen_type(rng, depth + 1, maxdepth)}" for k in keys[nreq:])
